@@ -4,7 +4,7 @@ NEXT GStop
 INVARIANT GOk
 CHECK_DEADLOCK FALSE
 CONSTANTS
- Fix = {}
+ Fix = {"mergeToken", "cloneTransport"}
  MGroup = {"mirrors", "prio", "repoauth", "ao1", "ao2"}
  MVals = 3
  MValsB = 3
